@@ -790,7 +790,15 @@ func c08LayoutPairs(c *fw.Ctx, pool *proc.Pool) {
 			}
 		}
 		if !st.base.Accepted {
-			return // judged by C02
+			// that a rendered model is rejected at all is C02's business; that another layout of the same model gets another
+			// verdict or another class of error is a layout dependence
+			switch {
+			case res.Accepted:
+				c.Violate("rejected-becomes-accepted:layout-pair:"+dim, fmt.Sprintf("model %s: the plain rendering is rejected (%q at line %d), the one that differs in %s is accepted", id, st.base.Err.Msg, st.base.Err.Line, dim), rp)
+			case st.base.Err != nil && res.Err != nil && msgClass(st.base.Err.Msg) != msgClass(res.Err.Msg):
+				c.Violate("error-class-changed:layout-pair:"+dim, fmt.Sprintf("model %s: %q becomes %q", id, trunc(st.base.Err.Msg, 120), trunc(res.Err.Msg, 120)), rp)
+			}
+			return
 		}
 		if !res.Accepted {
 			c.Violate("accepted-becomes-rejected:layout-pair:"+dim, fmt.Sprintf("model %s: the plain rendering is accepted, the one that differs in %s is rejected: %q at line %d", id, dim, res.Err.Msg, res.Err.Line), rp)
